@@ -12,6 +12,7 @@ type DecorSpec struct {
 	Needs  []int    `json:"needs"`  // extra 'x' characters per call (cycled)
 	Listen bool     `json:"listen"` // implements ShutdownListener
 	Ewma   bool     `json:"ewma"`   // implements EwmaDecorator
+	Avg    bool     `json:"avg"`    // carries the library's average ETA / speed decorators (AverageDecorator)
 	Wrap   []string `json:"wrap"`   // wrappers, innermost first: oncomplete onabort meta custom
 }
 
@@ -21,22 +22,23 @@ type Fault struct {
 }
 
 type Op struct {
-	Op    string      `json:"op"`
-	B     string      `json:"b,omitempty"`
-	N     int64       `json:"n,omitempty"`
-	Flag  bool        `json:"flag,omitempty"` // drop / complete / lazy
-	Total int64       `json:"total,omitempty"`
-	Rm    bool        `json:"rm,omitempty"`
-	NoPop bool        `json:"nopop,omitempty"`
-	After string      `json:"after,omitempty"`
-	Prio  *int        `json:"prio,omitempty"`
-	Pre   []DecorSpec `json:"pre,omitempty"`
-	App   []DecorSpec `json:"app,omitempty"`
-	Ext   int         `json:"ext,omitempty"` // extender rows
-	ExtRv bool        `json:"extrev,omitempty"`
-	Trim  bool        `json:"trim,omitempty"`
-	Fault *Fault      `json:"fault,omitempty"`
-	Line  string      `json:"line,omitempty"`
+	Op      string      `json:"op"`
+	B       string      `json:"b,omitempty"`
+	N       int64       `json:"n,omitempty"`
+	Flag    bool        `json:"flag,omitempty"` // drop / complete / lazy
+	Total   int64       `json:"total,omitempty"`
+	Rm      bool        `json:"rm,omitempty"`
+	NoPop   bool        `json:"nopop,omitempty"`
+	After   string      `json:"after,omitempty"`
+	Prio    *int        `json:"prio,omitempty"`
+	Pre     []DecorSpec `json:"pre,omitempty"`
+	App     []DecorSpec `json:"app,omitempty"`
+	Ext     int         `json:"ext,omitempty"` // extender rows
+	ExtRv   bool        `json:"extrev,omitempty"`
+	ExtFrag bool        `json:"extfrag,omitempty"` // the extender ends its output with an unterminated fragment
+	Trim    bool        `json:"trim,omitempty"`
+	Fault   *Fault      `json:"fault,omitempty"`
+	Line    string      `json:"line,omitempty"`
 }
 
 type Cfg struct {
